@@ -8,6 +8,7 @@ import (
 	"net"
 	"net/http"
 	"sync"
+	"sync/atomic"
 	"time"
 
 	"google.golang.org/grpc"
@@ -57,6 +58,8 @@ func Close() {
 }
 
 func Shutdown(timeout time.Duration) {
+	deadline := time.Now().Add(timeout)
+
 	mu.Lock()
 	srvs := make(map[string]Server, len(servers))
 	for k, v := range servers {
@@ -76,6 +79,12 @@ func Shutdown(timeout time.Duration) {
 		}(srv)
 	}
 	wg.Wait()
+
+	// websocket connections are hijacked and not part of the shutdown of
+	// the http servers: give the open ones the rest of the time
+	for atomic.LoadInt64(&tunnels) > 0 && time.Now().Before(deadline) {
+		time.Sleep(10 * time.Millisecond)
+	}
 }
 
 func ListenAndServeHTTP(l config.Listen, h http.Handler, cfg *tls.Config) error {
